@@ -444,6 +444,7 @@ def execute(case, sched_spec=None, max_steps=20000):
                      passthrough=(vsched.Abort, vsched.HarnessGap))
 
     schedule = make_schedule(sched_spec or case['sched'])
+    max_steps = max(max_steps, 60 * case['n'])      # wide graphs need more scheduling points
     ctrl, how, value = vsched.run_controlled(schedule, body, max_steps=max_steps,
                                              spurious=case.get('spurious'))
     rec = Record()
@@ -562,6 +563,18 @@ def extras(draw, n):
         if groups:
             extra['groups'] = groups
     return extra
+
+
+def wide_cases():
+    """Graphs far wider than the generated ones (hundreds to thousands of tasks that are ready at
+    the same time, a few failures, one task that softly depends on the first and the last):
+    the region where sizes of queues and pools matter.  One fixed schedule each."""
+    for n, workers in ((300, 3), (1100, 1), (1100, 2), (2100, 2)):
+        outs = ['done'] * n
+        for k, bad in zip((3, n // 2, n - 2), ('failed', 'raise', 'none')):
+            outs[k] = bad
+        yield {'n': n, 'edges': [(n - 1, 0, 's'), (n - 1, n - 2, 's'), (n - 3, 3, 'h')],
+               'outcomes': outs, 'workers': workers, 'sched': ('choices', [])}
 
 
 def outcomes(n, fail_weight, unmergeable=False):
